@@ -163,9 +163,18 @@ func HarnessC16Pool() {
 	// an unknown PID that is neither PSI nor PES, the PSI and PES units of the stream, and the failing PES
 	cat := &sUnit{pid: PIDCAT, kind: 3, bytes: []byte{0x00, 0x01, 0xb0, 0x05, 0x11, 0x22, 0x33, 0x44, 0x55}}
 	junk := &sUnit{pid: 0x1abc, kind: 0, bytes: []byte{0x12, 0x34, 0x56, 0x78, 0x9a}}
+	// units whose packets have the payload flag set but carry zero payload bytes (adaptation field of 183 bytes)
+	zero := func(cc uint8) []byte {
+		m := &mPacket{pid: 0x1abd, pusi: true, hasPayload: true, hasAF: true, cc: cc}
+		m.af.stuffing = 182
+		return refEncodePacket(m)
+	}
 	pk = append(pk, packetize(cat, 2, 184, false)...)
+	pk = append(pk, zero(1))
 	pk = append(pk, s.pkts...)
+	pk = append(pk, zero(2))
 	pk = append(pk, packetize(junk, 7, 184, false)...)
+	pk = append(pk, zero(3))
 	pk = append(pk, packetize(bad, 9, 184, false)...)
 	tail := mkPESPattern(0x100, 4, true, 7)
 	pk = append(pk, packetize(tail, 10, 184, false)...)
@@ -173,7 +182,7 @@ func HarnessC16Pool() {
 	for _, p := range pk {
 		b = append(b, p...)
 	}
-	_, ended := drainTolerant(b, 16)
+	_, ended := drainTolerant(b, 20)
 	vassert("C16.pool.drained", ended)
 	x := bytesPool.get(8)
 	y := bytesPool.get(8)
